@@ -104,6 +104,7 @@ type SpecFun struct {
 	Params []string
 	Src    string
 	Expr   ast.Expr
+	Lemma  bool // proved (universally closed over the integers) rather than assumed
 }
 
 var tagRe = regexp.MustCompile(`^([a-z]+)(?:\[([A-Za-z0-9 ,]+)\])?\s*(.*)$`)
@@ -455,9 +456,12 @@ func (cs *ContractSet) parseLines(lines []string, file, pkgPath, schemaDir strin
 			cs.Axioms = append(cs.Axioms, &Axiom{Name: strings.TrimSpace(rest[:c]), Src: strings.TrimSpace(rest[c+1:]), Expr: e})
 			cur = nil
 			continue
-		case "spec":
-			// spec name(a, b) = expr
-			rest := strings.TrimSpace(strings.TrimPrefix(l, "spec"))
+		case "spec", "lemma":
+			// spec name(a, b) = expr      (macro)
+			// lemma name(a, b) = expr     (macro over integers whose universal closure is proved as an obligation
+			//                              `lemma.name` of every contract that instantiates it)
+			isLemma := strings.HasPrefix(l, "lemma")
+			rest := strings.TrimSpace(strings.TrimPrefix(strings.TrimPrefix(l, "spec"), "lemma"))
 			eq := strings.Index(rest, "=")
 			op := strings.Index(rest, "(")
 			cp := strings.Index(rest, ")")
@@ -475,6 +479,7 @@ func (cs *ContractSet) parseLines(lines []string, file, pkgPath, schemaDir strin
 				return fmt.Errorf("%s: %v", where, err)
 			}
 			sf.Expr = e
+			sf.Lemma = isLemma
 			cs.SpecFuns[sf.Name] = sf
 			cur = nil
 			continue
